@@ -7,7 +7,7 @@
     of the two weight matrices whose columns are [H1, Ki1] and [H2, Ki2]  => [H1, Ki1, H2, Ki2].
 The two coincide only if ``sl2.arity == 1 or sl1.num_input_units == 1``.  Obligation: the rule
 restricts itself to those cases (a raise guarded by arity / unit counts), or re-lays the weight
-through a further parameter operator (then: unresolved, the permutation itself is not checked).
+through a column re-indexing (IndexParameter), whose permutation R14q decides as a polynomial identity.
 """
 from __future__ import annotations
 
@@ -81,6 +81,19 @@ def l1(ctx: Ctx) -> list[Ob]:
                     l,
                 )
             )
+        elif "IndexParameter" in pnode_calls and "KroneckerParameter" in pnode_calls:
+            # re-laid through a column re-indexing: the permutation itself is decided by R14q (polynomial identity)
+            from . import r14
+
+            sub = [o for o in r14.kronecker_sum_weight_layout(ctx, fq) if o.instance.startswith("kronecker-columns")]
+            bad = [o for o in sub if o.status == "violation"]
+            und = [o for o in sub if o.status == "unresolved"]
+            if bad:
+                out.append(viol("L1", fq, "layout", "the Kronecker weight is re-indexed, but not to the order in which multiply lists the inputs: " + bad[0].msg, l))
+            elif und:
+                out.append(unres("L1", fq, "layout", "the Kronecker weight is re-indexed; the permutation was not derived: " + und[0].msg, l))
+            else:
+                out.append(ok("L1", fq, "layout", "the Kronecker weight [H1, Ki1, H2, Ki2] is re-indexed to the listing order [H1, H2, Ki1, Ki2] (R14q: polynomial identity of the index expression)", l))
         else:
             out.append(unres("L1", fq, "layout", f"weight built through {pnode_calls}: layout not derived", l))
     return out
